@@ -3,7 +3,7 @@
    (checkRangeRightBound returns the accumulated res; index bounds are never rewritten); Refuted.v shows that
    both deviations of today's code break them. *)
 From Coq Require Import ZArith List Bool Arith Sorted.
-From OG Require Import C20.Model C20.Proofs C20.Cover C20.ScanProofs C20.TwoSided C20.NullOrder C20.MinMax C20.StrOps.
+From OG Require Import C20.Model C20.Proofs C20.Cover C20.ScanProofs C20.TwoSided C20.NullOrder C20.MinMax C20.StrOps C20.Multi.
 Import ListNotations.
 
 (* mark_sound: CheckInRange over a hyper-rectangle never says "cannot be true" when some row of the rectangle
@@ -176,6 +176,32 @@ Theorem C20_scan_sound_unboundable_atoms : forall isint nonkey x keys pads sizes
 Proof. exact scan_sound_strops. Qed.
 Print Assumptions C20_scan_sound_unboundable_atoms.
 
+(* ---------- the reader above the single indexes: attachedIndexReader.Next over a list of data files ----------
+   per file: primary-key scan, then the skip index (sk_scan), files with an empty result passed over, optional batch return;
+   [delivered] = everything the caller collects by repeating Next until it answers nil. *)
+
+(* every file of the list is looked at exactly once: what is delivered is, in order, the skip-filtered primary-key ranges of
+   every file for which they are not empty - for every file list, both index layers arbitrary, with and without batches *)
+Theorem C20_attached_reader_visits_every_file_once : forall files batch,
+  delivered files batch = expected_from files 0.
+Proof. exact delivered_spec. Qed.
+Print Assumptions C20_attached_reader_visits_every_file_once.
+
+(* the skip-index scan keeps every fragment the primary-key scan kept and the skip index does not exclude *)
+Theorem C20_sk_scan_sound : forall keep rs j,
+  covered j rs = true -> keep j = true -> covered j (sk_scan keep rs) = true.
+Proof. exact sk_scan_sound. Qed.
+Print Assumptions C20_sk_scan_sound.
+
+(* composition: a fragment that the primary-key scan of its file keeps (C20_scan_sound_writer_order: it holds a matching
+   row) and the skip index keeps (C20_bloom_skip_sound_repaired / _ascii: it holds a matching row) is delivered, whichever
+   file of the list it is in *)
+Theorem C20_attached_reader_delivers : forall files batch i f j,
+  nth_error files i = Some f -> covered j (f_pk f) = true -> f_keep f j = true ->
+  exists frs, In (i, frs) (delivered files batch) /\ covered j frs = true.
+Proof. exact attached_reader_delivers. Qed.
+Print Assumptions C20_attached_reader_delivers.
+
 (* ---------- the hypotheses are satisfiable: the refutation witnesses of Refuted.v, under the repaired model ---------- *)
 Open Scope Z_scope.
 Definition ex_keys : list key := [[Some 3; Some 2]; [Some 3; Some 5]; [Some 4; Some 0]; [Some 4; Some 1]; [Some 4; None]].
@@ -233,3 +259,11 @@ Example C20_example_minmax :
 Proof.
   split; [vm_compute; reflexivity|]. split; eexists; (split; [vm_compute; reflexivity|]); vm_compute; reflexivity.
 Qed.
+
+(* three files; the skip index drops everything the primary index kept in file 1; file 2 is still delivered (the shape of
+   the seeded defect "the file after a file emptied by the skip index is never scanned"), in one call and in batches of 1 *)
+Example C20_example_attached_reader :
+  let files := [mkF [(0, 2)%nat] (fun _ => true); mkF [(0, 3)%nat] (fun _ => false); mkF [(1, 3)%nat] (fun j => Nat.eqb j 2)] in
+  delivered files None = [(0, [(0, 2)]); (2, [(2, 3)])]%nat /\
+  drain 4 files 0 (Some 1%nat) = [[(0, [(0, 2)])]; [(2, [(2, 3)])]]%nat.
+Proof. split; vm_compute; reflexivity. Qed.
